@@ -214,11 +214,85 @@ def run_job(lines, cfg, limit=25.0):
 
 # ---------------------------------------------------------------------------------------
 def own_commands(lines):
+    """independent reading of a job: what is to be transmitted for each line (None = nothing): host commands (;@...) are for
+    the host, (...) groups and everything from the first ';' on are comments (the lines contain no line breaks)"""
     out = []
     for l in lines:
-        c = l.split(";", 1)[0].strip()
+        s = l.strip()
+        if s.startswith(";@"):
+            out.append(None)
+            continue
+        res = []
+        i = 0
+        while i < len(s):
+            ch = s[i]
+            if ch == "(":
+                j = i + 1
+                while j < len(s) and s[j] not in "()":
+                    j += 1
+                if j < len(s) and s[j] == ")":
+                    i = j + 1
+                    continue
+            if ch == ";":
+                break
+            res.append(ch)
+            i += 1
+        c = "".join(res).strip()
         out.append(c if c else None)
     return out
+
+
+def g_codepoints(s):
+    return g_list(["%d%%N" % ord(ch) for ch in s])
+
+
+def job_lines_correspondence(run, jobs, wire):
+    """model/JobLines.v against (a) the real regular expression + strip + host-command test on hostile strings, (b) the
+    harness's own reading of every generated job, (c) the commands printcore really transmitted in the corruption-free runs"""
+    from gscrib.printrun import gcoder
+    rng = run.rng
+    alphabet = ["(", ")", ";", "/", "*", "\n", " ", "\t", "@", "G1", "X1", "M117 a", "\x0b", "\x1c", "\xa0", "\u2003", "\r", "é", "(a)", "((", "))", ";@"]
+    hostile = ["", ";@pause", "  ;@x", "(a(b)c)", "G1 (x) Y2 ; z (w)", "a/b\nc", "*x\n*y", "(;)", ";()", "( \n )", "/ no newline", "x ; (", "G1\x1cX1\x1d", "\xa0G1\u3000"]
+    for _ in range(300 if run.thorough else 80):
+        hostile.append("".join(rng.choice(alphabet) for _ in range(rng.randint(1, 9))))
+    body = "Open Scope N_scope.\n"
+    for s in hostile:
+        body += "Eval vm_compute in (match job_command %s with Some t => (1, t) | None => (0, []) end).\n" % g_codepoints(s)
+    for lines in jobs:
+        body += "Eval vm_compute in job_commands %s.\n" % g_list([g_codepoints(l.strip()) for l in lines if l.strip()])
+    vals = []
+    for rc, out in coq_eval_many(PID, [("joblines", body)], "From GS Require Import model.JobLines.\n", timeout=900):
+        if rc != 0:
+            run.log("model evaluation failed:\n" + out[-1500:])
+            run.violation("the model (coq/model/JobLines.v) could not be evaluated", dict(theorem="C15_job_*"), no_input=True)
+            return 0
+        vals.extend(parse_evals(out))
+    if len(vals) != len(hostile) + len(jobs):
+        run.violation("the model (coq/model/JobLines.v) could not be evaluated", dict(theorem="C15_job_*"), no_input=True)
+        return 0
+    for s, val in zip(hostile, vals):
+        ok_, l = parse_term(val)
+        got = "".join(map(chr, l)) if ok_ == 1 else None
+        want = None if s.lstrip().startswith(";@") else (gcoder.gcode_strip_comment_exp.sub("", s).strip() or None)
+        if got != want:
+            run.violation("model and implementation disagree on what is transmitted for the job line %r: model %r, "
+                          "gcode_strip_comment_exp + strip %r" % (s, got, want),
+                          dict(line=s, theorem="C15_job_no_semicolon / C15_job_plain_line (coq/props/C15.v); correspondence: JobLines.job_command"), no_input=True)
+            return 0
+    n = 0
+    for lines, val, w in zip(jobs, vals[len(hostile):], wire):
+        got = ["".join(map(chr, l)) for l in parse_term(val)]
+        want = [c for c in own_commands(lines) if c]
+        if got != want:
+            run.violation("model and the independent reading disagree on the commands of a job: model %r, reading %r" % (got[:6], want[:6]),
+                          dict(job=lines, theorem="C15_job_* (coq/props/C15.v)"), no_input=True)
+            return n
+        if w is not None and w != got:
+            run.violation("model and implementation disagree on the commands transmitted for a job (corruption-free run): model %r, wire %r" % (got[:8], w[:8]),
+                          dict(job=lines, theorem="C15_job_* (coq/props/C15.v); correspondence: JobLines.job_commands = first transmissions"), no_input=True)
+            return n
+        n += 1
+    return n
 
 
 def gen_job(rng, thorough):
@@ -256,6 +330,11 @@ def gen_job(rng, thorough):
         lines.append("M84")
     for _ in range(rng.randint(0, 4)):
         lines.append(rng.choice(["G4 P10", "M106 S128", "G1 X1 F3000", "G1 X1 F3000", "M107", "G92 E0"]))
+    # the other comment forms the sender removes, host commands, surrounding blanks
+    for _ in range(rng.randint(0, 3)):
+        at = rng.randint(0, len(lines))
+        lines.insert(at, rng.choice(["(layer marker)", "G1 X7 (inline note) Y3", "  G1 X2 Y2\t", ";@note for the host", "G1 Z1 (a) (b) ; c (d)",
+                                     "M117 fan/2", "G4 P1 (", "G1 X3 ) F100", "(;) G1 X4"]))
     return lines
 
 
@@ -361,6 +440,7 @@ def main():
     found = False
     coq = []
     meta = []
+    jl_jobs, jl_wire = [], []
     stats = dict(scenarios=0, corrupted_transmissions=0, resends=0, transmissions=0, kinds={})
     for kind, lines, cfg in scen:
         cmds_opt = own_commands(lines)
@@ -369,6 +449,9 @@ def main():
         stats["scenarios"] += 1
         stats["kinds"][kind] = stats["kinds"].get(kind, 0) + 1
         evs = res["events"]
+        jl_jobs.append(lines)
+        clean_link = not cfg.get("corrupt") and not cfg.get("corrupt_first_of") and res["finished"]
+        jl_wire.append([FRAME.match(e[1]).group(2) for e in evs if e[0] == "tx" and FRAME.match(e[1]) and "M110" not in e[1]] if clean_link else None)
         stats["transmissions"] += sum(1 for e in evs if e[0] == "tx")
         stats["corrupted_transmissions"] += sum(1 for e in evs if e[0] == "tx" and not e[2])
         stats["resends"] += sum(1 for e in evs if e[0] == "rx" and e[1].startswith("Resend"))
@@ -478,6 +561,7 @@ def main():
         run.violation("correspondence broken on %d of %d traces (first: %s); the firmware accepted the whole job in every scenario" % (len(mism), len(meta), what),
                       dict(correspondence="check_trace (model/Sender.v) vs printcore over the fake firmware", first=rep,
                            theorems=["C15_safety", "C15_numbering", "C15_resend", "C15_complete_clean"]), no_input=True)
+    stats["job_line_readings_compared"] = job_lines_correspondence(run, jl_jobs, jl_wire)
     proof_broken_violation(run, st, found)
     run.cov["rule"] = ("the real printcore (connect, startprint over gcoder.GCode, print/read threads) streams print-like jobs (extruding layers, Z "
                        "changes, Z-hops, non-extruding tails, comment-only and blank lines) to a fake serial.Serial with a Marlin-style "
